@@ -54,7 +54,9 @@ PROP_LIT = {'_name': 'hasName', '_definition': 'hasDefinition', '_dtype': 'hasDt
 FORMATS = ('xml', 'nt', 'json-ld', 'turtle', 'n3')
 EXT = {'xml': '.rdf', 'nt': '.nt', 'json-ld': '.jsonld', 'turtle': '.ttl', 'n3': '.n3'}
 CUSTOM_MAP = {'t': 'CustomT', 'setup/daq': 'CustomDaq', 'recording': 'MyRecording'}
-WORKDIR = os.path.join(h.WORK, 'b_C10.tmp')      # created and removed by run_roundtrip
+# scratch directories, created and removed by the run_* functions; per process, so that two runs (other tree,
+# other tier) at the same time do not remove each other's files
+WORKDIR = os.path.join(h.WORK, 'b_C10.%d.tmp' % os.getpid())
 
 
 def default_subclass_map():
@@ -671,8 +673,8 @@ SINGLE_VALUED = ('hasAuthor', 'hasDocVersion', 'hasDate', 'hasName', 'hasType', 
 W_KINDS = ('convert', 'str', 'string', 'file')                # 'unicode' only in the full alphabet (alias of str)
 W_FULL = (('convert',), ('str',), ('unicode',)) + tuple(('string', f) for f in FORMATS) + \
     tuple(('file', f) for f in FORMATS)
-WHIST_DIR = os.path.join(h.WORK, 'b_C10.whist.tmp')
-RHIST_DIR = os.path.join(h.WORK, 'b_C10.rhist.tmp')
+WHIST_DIR = os.path.join(h.WORK, 'b_C10.whist.%d.tmp' % os.getpid())
+RHIST_DIR = os.path.join(h.WORK, 'b_C10.rhist.%d.tmp' % os.getpid())
 
 
 def check_functional(g):
@@ -727,10 +729,14 @@ def history_doc_sets(tier, seed):
         out.append(('uncertainties', [spec['uncertainties']]))
         out.append(('tuples', [spec['tuples']]))
         out.append(('empty-document', [spec['empty-document']]))
-        out.append(('gen-list3', [gen[3], gen[4], spec['all-dtypes']]))
-        for k in range(5, min(len(gen), 11)):
+        out.append(('gen-list3', [gen[3], gen[4], gen[5]]))
+        for k in range(6, min(len(gen), 10)):
             out.append(('gen[%d]' % k, [gen[k]]))
+        out.append(('all-dtypes', [spec['all-dtypes']]))          # large: short histories only, see LIGHT
     return out
+
+
+LIGHT = ('all-dtypes',)
 
 
 def _edit(docs, k):
@@ -856,6 +862,12 @@ def _writer_history(lim, label, base_docs, hist, instance, modeinfo, tier, seed,
             continue
         if instance == 'fresh' and exports > 0:
             st, writer = h.call(lambda: RDFWriter(list(docs), **kw))
+            if st == 'exc':
+                lim.fail(check='C10.writer_history/export-does-not-raise',
+                         cls={'clause': 'export-does-not-raise', 'feature': type(writer).__name__,
+                              'usage': 'constructor'},
+                         witness=dict(wit, step=i), detail='RDFWriter(...) raised %r' % (writer,))
+                return
             ctor = {d._id: flat(d) for d in docs}
         cur = {d._id: flat(d) for d in docs}
         edited = cur != ctor
@@ -901,15 +913,20 @@ def _writer_history(lim, label, base_docs, hist, instance, modeinfo, tier, seed,
                 fail('export-is-parsable', fmt, 'rdflib cannot parse the %s text: %r' % (fmt, g))
                 continue
         seen = set()
+        mixed = []
         if edited:
-            # which state of the documents an old writer exports is left open: only what holds for both
-            problems = check_functional(g)
+            # whether a writer created before an edit exports the old or the new state is left open by the
+            # statement; a graph with two names for one node is neither.  One class for all that is stale.
+            mixed = list(check_functional(g))
+            if mixed:
+                fail('one-state-after-edit', 'graph-mixes-old-and-new-statements',
+                     '; '.join(d for _c, _f, d in mixed[:4]))
         else:
-            problems = check_graph(g, docs, mode, smap, approx=(kind != 'convert' and fmt in ('turtle', 'n3')))
-        for clause, feature, detail in problems:
-            if (clause, feature) not in seen:
-                seen.add((clause, feature))
-                fail(clause, feature, detail)
+            for clause, feature, detail in check_graph(g, docs, mode, smap,
+                                                       approx=(kind != 'convert' and fmt in ('turtle', 'n3'))):
+                if (clause, feature) not in seen:
+                    seen.add((clause, feature))
+                    fail(clause, feature, detail)
         # ---- import with a new reader
         if kind == 'convert':
             continue
@@ -923,7 +940,13 @@ def _writer_history(lim, label, base_docs, hist, instance, modeinfo, tier, seed,
         if st == 'exc':
             fail('import-does-not-raise', type(back).__name__, 'import raised %r' % (back,))
             continue
-        for clause, feature, detail in _judge_import(back, cur, ctor if edited else None, fmt):
+        problems = _judge_import(back, cur, ctor if edited else None, fmt)
+        if edited:
+            if problems and not mixed:
+                fail('one-state-after-edit', 'import-matches-neither-old-nor-new-documents',
+                     '; '.join(d for _c, _f, d in problems[:4]))
+            continue
+        for clause, feature, detail in problems:
             if (clause, feature) not in seen:
                 seen.add((clause, feature))
                 fail(clause, feature, detail)
@@ -976,8 +999,8 @@ def run_writer_history(tier, seed):
                            'write_file(fmt)} (+ "documents edited" between calls) in every order on one RDFWriter and '
                            'on a new RDFWriter per call over the same document objects, serialisations rotating; '
                            'the full alphabet of 13 entry point x serialisation pairs (incl. __unicode__) in every '
-                           'order up to length 2 (quick) / 3 (thorough, two document sets); histories of one '
-                           'ODMLWriter("RDF") over two documents; x 6 (quick) / 17 document sets, sub-classing mode '
+                           'order up to length 2 (1 document set quick, 8 thorough) / 3 (thorough, one set); histories '
+                           'of one ODMLWriter("RDF") over two documents; x 6 (quick) / 16 document sets, sub-classing mode '
                            'rotating; every step judged with the graph-shape predicate on the independently parsed '
                            'output and the import comparison; class = (instance, entry point kinds in order, #docs, '
                            '#sections, #props, feature set)',
@@ -997,17 +1020,18 @@ def run_writer_history(tier, seed):
         n = 0
         for k, (label, docs) in enumerate(sets):
             feats = features_of(docs)
-            plans = [('same', hist) for hist in _kind_histories(3, True)]
-            plans += [('fresh', hist) for hist in _kind_histories(2 if quick else 3, True)]
+            light = label in LIGHT
+            plans = [('same', hist) for hist in _kind_histories(2 if (light or (quick and k >= 5)) else 3, True)]
+            plans += [('fresh', hist) for hist in _kind_histories(1 if light else 2 if (quick or k >= 6) else 3, True)]
             for instance, seq in plans:
                 n += 1
                 hist = _with_formats(seq, n)
                 col.case(cls_key=(instance, seq) + feats, sample='%s/%s/%s' % (label, instance, '>'.join(seq)))
                 _writer_history(lim, label, docs, hist, instance, modes[(k + n) % 3], tier, seed, 'k%d' % n)
             # full alphabet: every entry point x serialisation after every other one
-            if quick and k >= 2:
+            if light or k >= (1 if quick else 8):
                 continue
-            full_len = 3 if (not quick and k < 2) else 2
+            full_len = 3 if (not quick and label == 'hist-same-template') else 2
             for m in range(1, full_len + 1):
                 for hist in itertools.product(W_FULL, repeat=m):
                     n += 1
